@@ -502,6 +502,8 @@ pub fn run(ctx: &Ctx) {
         Value::Bool(true),
         Value::Vec(vec![Value::Int(1)]),
         crate::pool::map(&[]),
+        crate::pool::dt(1_700_000_090, 0),
+        crate::pool::du(90, 0),
     ]);
     ctx.enumerate(
         "coinciding-depth2",
